@@ -110,11 +110,11 @@ def run(rep, tier):
         if opc == 13 and opr == 3:
             exp['syscall'] = trunc(A, 2)
             got['syscall'] = r['syscall']
-        # extra registers in the design would be extra state: must not exist
+        # extra registers are not a violation by themselves (a benign counter would be fine): if they influence
+        # an architectural next-state function or the fetch path, that term differs from the ISA's and is reported
         extra = set(r['next']) - {'pc_q', 'areg_q', 'breg_q', 'oreg_q'}
-        if extra or r['mem_regs']:
-            rep.add('R1', 'byte=0x%02X:extra-state' % b, False, 'verilog/processor.sv',
-                    'state elements not in the ISA: %s' % sorted(extra | set(r['mem_regs'])))
+        if (extra or r['mem_regs']) and b == 0:
+            rep.note('additional state elements present: %s' % sorted(extra | set(r['mem_regs'])))
         for k in exp:
             key = 'byte=0x%02X:%s' % (b, k)
             a, c = exp[k], got[k]
@@ -146,15 +146,16 @@ def run(rep, tier):
             rep.add('R1', key, False, where, detail, data={'byte': b, 'field': k, 'isa': repr(a), 'rtl': repr(c)})
     rep.extra['defined_bytes'] = n_bytes
     # R2: clocking structure
-    pm = d.modules['processor']
-    sens_ok = len(pm.ff) == 1
-    s = sorted((it.get('edgeType'), it[0].get('name')) for ff in pm.ff for it in ff.find('sentree'))
-    rep.add('R2', 'processor:clocking', sens_ok and s == [('POS', 'i_clk'), ('POS', 'i_rst')], 'verilog/processor.sv',
-            '%d clocked block(s), sensitivity %s' % (len(pm.ff), s))
-    mm = d.modules['memory']
-    s = sorted((it.get('edgeType'), it[0].get('name')) for ff in mm.ff for it in ff.find('sentree'))
-    rep.add('R2', 'memory:clocking', len(mm.ff) == 1 and ('POS', 'i_clk') in s and all(e == 'POS' for e, _ in s),
-            'verilog/memory.sv', '%d clocked block(s), sensitivity %s' % (len(mm.ff), s))
+    for mn, fn in (('processor', 'verilog/processor.sv'), ('memory', 'verilog/memory.sv')):
+        mod = d.modules[mn]
+        bad = []
+        for ff in mod.ff:
+            s_ = sorted((it.get('edgeType'), it[0].get('name')) for it in ff.find('sentree'))
+            if ('POS', 'i_clk') not in s_ or any(e != 'POS' or n not in ('i_clk', 'i_rst') for e, n in s_):
+                bad.append(s_)
+        rep.add('R2', mn + ':clocking', bool(mod.ff) and not bad, fn,
+                '%d clocked block(s); offending sensitivity lists: %s' % (len(mod.ff), bad) if bad else
+                '%d clocked block(s), all on posedge i_clk (+ optional posedge i_rst)' % len(mod.ff), nontrivial=False)
     # R3: fetch and data read paths (instruction byte symbolic)
     r, ev = rtl_summary(d, top, 0, 0, None, fetch_override=False)
     proc = ev.scope(top + '.u_processor')
